@@ -25,6 +25,10 @@ check_operators(operators.py, _math.py):
       reported in the result (never silently skipped); they are matched by class, method
       and the exact normalised source of the statement.
 
+  (3) statelessness.  No store into `self` (or a view of it) in any method but __init__: an operator instance is
+      long-lived and is applied to many problems; its result must depend on the parents it is given only.
+      Documented exception: Multimethod.select (SELF_STORE_ACCEPTED).
+
   (2) flag discipline.  For every store into `<X>.variables` (directly or through a view
       such as `permutation = result.variables[index]`) there is an assignment
       `<X>.evaluated = False` that is a direct statement of the block containing the store
@@ -54,6 +58,15 @@ ACCEPTED = {
         "object: the same solutions in another order); no parent SOLUTION is written. The property is about "
         "the parent solutions; the driver's snapshots compare every parent solution before/after and "
         "record the list permutation separately.",
+}
+
+# (3) operators are stateless across calls: no store into (a view of) `self` in any method other than __init__.
+#     (class, method) -> reason for the documented exceptions; reported as accepted, never silently skipped.
+SELF_STORE_ACCEPTED = {
+    ("Multimethod", "select"):
+        "Multimethod is adaptive BY DESIGN: select() updates last_update / probabilities / next_variator / arity of the "
+        "instance after every evolve. The state only decides WHICH member operator runs next (modelled as one index draw); "
+        "the offspring of each call are produced by that member from the parents it is given.",
 }
 
 DEEP, SHALLOW, SELF, PARAM, UNKNOWN = "DEEP", "SHALLOW", "SELF", "PARAM", "UNKNOWN"
@@ -251,6 +264,13 @@ class FunctionCheck:
         origins = self.origin_of_name(root)
         bad = []
         for o in origins:
+            if o == SELF and not self.is_helper:
+                k2 = (self.cls, self.fn.name)
+                if k2 in SELF_STORE_ACCEPTED:
+                    self.accepted.append({"where": self.where(stmt), "reason": SELF_STORE_ACCEPTED[k2]})
+                else:
+                    bad.append("store into the operator instance (`%s`): operators must not keep state between calls" % root)
+                continue
             if o in (DEEP, SELF):
                 continue
             if o == SHALLOW:
@@ -351,6 +371,8 @@ class FunctionCheck:
                         self.nstores += 1
                         o = self.expr_origin(f.value) if not isinstance(f.value, ast.Name) else self.origin_of_name(f.value.id)
                         okset = {DEEP, SELF, SHALLOW}
+                        if SELF in o and not self.is_helper and (self.cls, fn.name) not in SELF_STORE_ACCEPTED:
+                            self.fail(node, "mutating call .%s() on the operator instance: operators must not keep state between calls" % f.attr)
                         if not o <= okset:
                             self.fail(node, "mutating call .%s() on a receiver that is not a fresh object / self (origins %s)" % (f.attr, sorted(o)))
                         continue
@@ -462,6 +484,9 @@ def check_operators(operators_path, math_path=None):
     out["failures"] += h["failures"]
     # every ACCEPTED entry must still match something (a stale entry is reported too)
     seen = {a["where"] for a in out["accepted"]}
+    for (cls, meth) in SELF_STORE_ACCEPTED:
+        if not any(w.startswith("%s.%s line" % (cls, meth)) for w in seen):
+            out["failures"].append("accepted self-store no longer present: %s.%s" % (cls, meth))
     for (cls, meth, stmt), _why in ACCEPTED.items():
         if not any(w.startswith("%s.%s line" % (cls, meth)) and w.endswith(stmt) for w in seen):
             out["failures"].append("accepted pattern no longer present: %s.%s: %s" % (cls, meth, stmt))
